@@ -187,7 +187,15 @@ def run(ctx: core.Ctx):
                             obj_.initialize()
                             conn_.get = _orig_get
                         ctx.count("attribute_history:" + variant)
-                        conn_.deliver(_St.OK, c["id"], f["name"], t)
+                        if "\r\n" not in t and rng.random() < 0.3:
+                            # the report travels the whole receive path: bytes -> framing -> the line parser -> the object (function names
+                            # that start with a digit, values with ':' and '=' in them are parsed there, not here)
+                            from ynca.connection import YncaProtocol as _YP
+                            _pr = _YP(conn_.deliver, None, 0)
+                            _pr.data_received((f"@{c['id']}:{f['name']}={t}\r\n").encode("utf-8"))
+                            ctx.count("attribute_via_receive_path")
+                        else:
+                            conn_.deliver(_St.OK, c["id"], f["name"], t)
                         got = getattr(obj_, f["attr"])
                     except Exception as e:  # noqa: BLE001
                         ctx.violation(f"{c['py']}.{f['attr']}: the report {f['name']}={t!r} raised {type(e).__name__} in the message handler / on reading the attribute",
